@@ -10,6 +10,11 @@ NOTE = ('Trusted: z3; the symtorch/symnumpy model of the torch/numpy calls torch
         'Bounds (orders, mode sizes, ranks = the unwinding bound) are listed in the evidence file; nothing is claimed outside them.')
 
 CHECKS = {
+    'C01': ('model_checking', 'Two layers on the real rank_chop/SVD/to_tt/mat_to_tt/TT.__init__: (K) the rank-selection kernel on symbolic sorted spectra and thresholds (ties are solver-chosen), '
+            '(S) the full sweep on sparse dense inputs with symbolic positive magnitudes (structurally-orthogonal class, exact symbolic SVD), symbolic eps, rmax variants, torch/numpy/shape/operator entry points. '
+            'Per path z3 decides the rank clauses and ||A-full(T)||^2 <= eps^2||A||^2.', '4 C01'),
+    'C02': ('model_checking', 'x.round(eps, rmax) on structurally-orthogonal TT tensors/matrices with symbolic positive magnitudes of arbitrary scale, non-orthogonal and rank-deficient cores, eps symbolic in [0,1); '
+            'per path of lr_orthogonal/round_tt/rank_chop z3 decides rank clauses, the error bound and operand preservation.', '4 C02'),
     'C03': ('model_checking', 'For every operand structure inside the bound (orders 1..4/5, sizes<=4, ranks<=3, broadcasting alignments, scalar kinds, dtypes) the core entries and scalar operands are '
             'solver variables and z3 shows that no values make the TT result differ from the dense expression (plus rank/dtype clauses). Exhaustive over values, bounded over structure.', '4 C03'),
     'C04': ('model_checking', 'Same scheme for TT-matrix products, transpose, +,-,*, scalar ops and operator @ dense with 0..3 batch dims; row/column/inner sizes distinct; z3 decides value equality for all core values per structure.', '4 C04'),
@@ -18,6 +23,8 @@ CHECKS = {
     'C07': ('model_checking', 'norm (Gram chain and QR sweep), dot (all mode subsets), sum (all subsets, TT and TTM), bilinear_form against dense reductions; conjugation clauses decided with symbolic complex entries.', '4 C07'),
     'C08': ('model_checking', 'Index values are z3 integers (negative allowed), core entries z3 reals; every index-kind pattern inside the bound incl. length-1 slices, singleton modes, None, Ellipsis; result values and shape compared with dense indexing.', '4 C08'),
     'C09': ('model_checking', 'cat/pad/diag/mprod/to_ttm/conj/clone against the dense operation for all core, fill and factor values per structure (pad fill value symbolic, so 0 and non-zero are both covered).', '4 C09'),
+    'C10': ('model_checking', 'reshape / permute / to_qtt on structurally-orthogonal inputs with symbolic magnitudes and symbolic eps (exact QR/SVD models), qtt_to_tens on arbitrary symbolic cores: requested shape exactly, '
+            'error <= c*eps*norm per path, and exact equality at the default eps (decides sign/scale preservation under the positive-diagonal QR convention).', '4 C10'),
     'C20': ('model_checking', 'forward(x) == W.x + b for all weights, biases and inputs per layer structure (modes, rank profiles, batch dims, initialisers, dtypes); parameter registration checked structurally. Gradient clause under C15.', '4 C20'),
 }
 
